@@ -474,6 +474,15 @@ def execute(plan):
             sid = SVR_URLS[s] if s is not None else None
             exp_add, exp_del = set(), set()
             owned_op = True
+
+            def hosty(path, i=i):
+                # in some steps the caller's path names the host (as paths
+                # returned by the association operations do)
+                if i % 4 == 1:
+                    path = path.copy()
+                    path.host = SVR_URLS[s].split('//')[-1]
+                    bump(probes, 'removal_by_path_with_host')
+                return path
             try:
                 if kind == 'add_server':
                     if s in w.reg[m]:
@@ -587,7 +596,7 @@ def execute(plan):
                     if key is None:
                         continue
                     exp_del = {('s',) + key}
-                    mgr.remove_subscriptions(sid, w.sub_path(s, key))
+                    mgr.remove_subscriptions(sid, hosty(w.sub_path(s, key)))
                 elif kind == 'rm_filter':
                     _, _, _, fi = st
                     _d, mf, _s = w.owned(m, s)
@@ -601,7 +610,7 @@ def execute(plan):
                     if referenced:
                         outcome = 'expect-refused'
                         bump(probes, 'referenced_removal_attempted')
-                    mgr.remove_filter(sid, w.path_of(s, 'f', fname))
+                    mgr.remove_filter(sid, hosty(w.path_of(s, 'f', fname)))
                     if outcome == 'expect-refused':
                         viol('referenced-filter-removed', 'step %d %s' %
                              (i, what))
@@ -617,7 +626,7 @@ def execute(plan):
                     if any(k[1] in dnames for k in w.subown[s]):
                         outcome = 'maybe-refused'
                         bump(probes, 'referenced_removal_attempted')
-                    paths = [w.path_of(s, 'd', n) for n in dnames]
+                    paths = [hosty(w.path_of(s, 'd', n)) for n in dnames]
                     mgr.remove_destinations(sid, paths if len(paths) > 1
                                             else paths[0])
                 elif kind == 'remove_server':
